@@ -796,19 +796,30 @@ func RunType[K comparable](run *ev.Run, rng *rand.Rand, kt KT[K], cases int) {
 		}
 		keys := kt.Pool(rng, n)
 		kind := "plain"
+		var halfGroup []K
 		if len(collisions) > 0 && rng.Intn(3) == 0 {
 			g := collisions[rng.Intn(len(collisions))]
 			have := map[string]bool{}
 			for _, k := range keys {
 				have[kt.KeyCanon(k)] = true
 			}
-			for _, k := range g {
-				if !have[kt.KeyCanon(k)] {
-					keys = append(keys, k)
+			if rng.Intn(2) == 0 {
+				// only one key of the group is requested (it sits alone in its bucket); the reply may then mention the
+				// other one, which was never requested
+				if !have[kt.KeyCanon(g[0])] && !have[kt.KeyCanon(g[1])] {
+					keys = append(keys, g[0])
+					halfGroup = g
 				}
+				kind = "colliding-half"
+			} else {
+				for _, k := range g {
+					if !have[kt.KeyCanon(k)] {
+						keys = append(keys, k)
+					}
+				}
+				kind = "colliding"
 			}
 			rng.Shuffle(len(keys), func(i, j int) { keys[i], keys[j] = keys[j], keys[i] })
-			kind = "colliding"
 		}
 		dupWanted := len(keys) > 0 && rng.Intn(4) == 0
 		if dupWanted {
@@ -878,9 +889,13 @@ func RunType[K comparable](run *ev.Run, rng *rand.Rand, kt KT[K], cases int) {
 				}
 			}
 		}
-		if !dup && rng.Intn(5) == 0 {
+		if !dup && (rng.Intn(5) == 0 || (halfGroup != nil && rng.Intn(2) == 0)) {
 			// a key that was never requested: fresh, or colliding with a requested one
 			var extra *K
+			if halfGroup != nil && seenKey[kt.KeyCanon(halfGroup[0])] > 0 && seenKey[kt.KeyCanon(halfGroup[1])] == 0 {
+				extra = &halfGroup[1]
+				run.Count(GENERATION+"."+kt.Name+".unrequested_colliding_key_replies", 1)
+			}
 			for _, g := range collisions {
 				if seenKey[kt.KeyCanon(g[0])] > 0 && seenKey[kt.KeyCanon(g[1])] == 0 && rng.Intn(2) == 0 {
 					extra = &g[1]
